@@ -10,6 +10,7 @@
 -/
 import HidiProofs.Bodies
 import HidiProofs.FloatLemmas
+set_option linter.unusedSimpArgs false
 namespace Hidi.BodiesTie
 open Hidi Hidi.GoLite Hidi.Gen
 
